@@ -113,7 +113,9 @@ def coerce_float(maybe_float: _ScalarValue) -> float:
 
     try:
         return float(maybe_float)
-    except ValueError:
+    except (OverflowError, ValueError):
+        # OverflowError: an integer too large for a float (JSON decoders
+        # produce arbitrarily large integers).
         raise ValueError(
             "Float cannot represent non numeric value: %s" % maybe_float
         )
